@@ -297,6 +297,85 @@ func inspectCase(c *Ctx, lit string) {
 	c.NonTrivial("inspect:" + txt)
 }
 
+// unquoteCase: a tree that the PARSER did not build - quote(T) with unquote(E) of a computed value inside - printed in
+// both modes must parse back to that very tree (what a macro puts into a function body is what Inspect, save and history
+// print later). E is evaluated; a value kind unquote does not support becomes an error(...) call node, which round-trips too.
+func unquoteCase(c *Ctx, tmpl, e string) {
+	c.Eval()
+	src := "q = quote(" + strings.ReplaceAll(tmpl, "@", "unquote("+e+")") + ")"
+	cs := "UNQ " + Hx([]byte(tmpl)) + " " + Hx([]byte(e))
+	var node ast.Node
+	func() {
+		defer func() {
+			if r := recover(); r != nil {
+				if msg := fmt.Sprint(r); strings.HasPrefix(msg, "would exceed memory") || strings.HasPrefix(msg, "max depth") {
+					c.Count("unquote=evaluation-guard")
+					return
+				}
+				c.Fail("unquote-panic", cs, fmt.Sprint(r))
+			}
+		}()
+		st := eval.NewState()
+		st.NoLog = true
+		prog, ok := ParseClean([]byte(src))
+		if !ok {
+			c.Count("unquote=notclean")
+			return
+		}
+		if q, isq := st.Eval(prog).(object.Quote); isq {
+			node = q.Node
+		}
+	}()
+	if node == nil {
+		c.Count("unquote=notquote")
+		return
+	}
+	c.Count("unquote=quote")
+	tree := &ast.Statements{Statements: []ast.Node{node}} // printed as a program, as Inspect / save / history print it
+	want := DumpNoComments(tree)
+	for _, compact := range []bool{false, true} {
+		mode := []string{"normal", "compact"}[b2i(compact)]
+		ps := ast.NewPrintState()
+		ps.Compact = compact
+		var txt string
+		func() {
+			defer func() {
+				if r := recover(); r != nil {
+					c.Fail("unquote-print-panic:"+mode, cs, fmt.Sprint(r))
+				}
+			}()
+			txt = tree.PrettyPrint(ps).String()
+		}()
+		prog2, ok2 := ParseClean([]byte(txt))
+		outcome := "same"
+		if !ok2 {
+			outcome = "rejected"
+		} else if DumpNoComments(prog2) != want {
+			outcome = "differs"
+		}
+		if outcome != "same" {
+			sig := RTSig(tree, mode, outcome) // the recorded printer findings (e.g. 2.x for (2).x) apply to these trees too
+			if strings.HasPrefix(sig, "roundtrip-unclassified") {
+				sig = "unquoted-tree-roundtrip:" + mode + ":" + outcome
+			}
+			c.Fail(sig, cs, fmt.Sprintf("source=%q printed=%q tree=%s reparsed=%s", src, txt, want, func() string {
+				if ok2 {
+					return DumpNoComments(prog2)
+				}
+				return "-"
+			}()))
+		}
+	}
+	c.NonTrivial("unq:" + src)
+}
+
+func b2i(b bool) int {
+	if b {
+		return 1
+	}
+	return 0
+}
+
 // an expression that starts with a map / array literal or a parenthesised lambda some levels down its left spine
 func leadingLiteral(g *Gen) string {
 	e := g.Pick([]string{`({"a":1,"b":2})`, "({})", `({k:1})`, "([1,2,3])", "(a=>a)", `({1:{2:3}})`, "({})"})
@@ -408,6 +487,9 @@ func run(c *Ctx) {
 		if len(f) >= 2 && f[0] == "INSPECT" {
 			inspectCase(c, string(Unhx(f[1])))
 		}
+		if len(f) == 3 && f[0] == "UNQ" {
+			unquoteCase(c, string(Unhx(f[1])), string(Unhx(f[2])))
+		}
 		return
 	}
 	var s st
@@ -422,53 +504,12 @@ func run(c *Ctx) {
 	}
 	matrix(c, &s, c.Thorough())
 	c.Extra["exhaustive"] = true
-	// adjacent literals: every ordered pair of leaf forms as consecutive statements (newline, `;`, blank line), as neighbouring
-	// array elements and call arguments, and as the two sides of a map pair - what the printer decides for one literal must not
-	// depend on the token that follows or precedes it (the parser is one token ahead of the node it builds)
-	leaves := []string{"\"s\"", "\"tick ` tock\"", "`raw`", "`a\"b`", "\"a`+`b\"", "`c`", "\"\"", "``", "`multi\nline`", "\"q\\\"q\"", "1", "007", "0x1F", "1.5", ".5", "2.", "1e3",
-		"9223372036854775807", "9223372036854775808", "-9223372036854775808", "-1", "- 1", "-1.5", "+1", "--a", "++a", "a--", "a++", "-a", "!a", "~a", "^a", "-(-a)", "-(-1)", "-(1)", "a", "_z1", "true", "nil",
-		"[]", "{}", "()=>1", "f()", "a.b", "a[0]", "(a)", "(-1)", "-9223372036854775807", "-0", "-0.0", "1_000"}
-	npair := 0
-	for i, l1 := range leaves {
-		for j, l2 := range leaves {
-			if !c.Thorough() && (i*7+j)%4 != 0 && !(strings.ContainsAny(l1[:1], "\"`") && strings.ContainsAny(l2[:1], "\"`")) {
-				continue
-			}
-			for k, tpl := range []string{"%s\n%s", "%s;%s", "x = %s\ny = %s", "[%s, %s]", "f(%s, %s)", "{%s: %s}", "if c {%s} else {%s}", "%s\n\n%s\n%s"} {
-				if !c.Thorough() && k >= 3 && (i+j+k)%3 != 0 {
-					continue
-				}
-				src := fmt.Sprintf(tpl, l1, l2)
-				if k == 7 {
-					src = fmt.Sprintf(tpl, l1, l2, l1)
-				}
-				one(c, []byte(src), false, &s)
-				npair++
-			}
-		}
+	// adjacent literals and operators against delicate operands (common.DelicatePrograms; shared with C03)
+	dl := DelicatePrograms(c.Thorough())
+	for _, src := range dl {
+		one(c, []byte(src), false, &s)
 	}
-	c.Dist["adjacent-literal-programs"] = npair
-	// every binary and prefix operator against every sign-leading or otherwise delicate operand, on both sides, bare and
-	// parenthesised (two minus signs, a minus and a decrement, a literal whose text starts with a sign must stay apart)
-	nop := 0
-	for _, l := range leaves {
-		for _, op := range BinOps {
-			for k, tpl := range []string{"a %s %s", "%[2]s %[1]s a", "a %s (%s)", "x = a%s%s", "f(a %s %s)", "()=>a %s %s"} {
-				if !c.Thorough() && k >= 3 && (len(l)+len(op)+k)%3 != 0 {
-					continue
-				}
-				one(c, []byte(fmt.Sprintf(tpl, op, l)), false, &s)
-				nop++
-			}
-		}
-		for _, op := range PrefixOps {
-			for _, tpl := range []string{"%s%s", "%s(%s)", "%s %s", "a = %s%s", "b %s%s"} {
-				one(c, []byte(fmt.Sprintf(tpl, op, l)), false, &s)
-				nop++
-			}
-		}
-	}
-	c.Dist["operator-by-delicate-operand-programs"] = nop
+	c.Dist["delicate-literal-and-operator-programs"] = len(dl)
 	// generated programs
 	n := 1500
 	if c.Thorough() {
@@ -516,6 +557,15 @@ func run(c *Ctx) {
 	for i := 0; i < ni; i++ {
 		g := &Gen{R: c.R, O: GenOpts{AvoidKnown: true, Comments: false, MaxDepth: 3}}
 		inspectCase(c, funcLiteral(g, 1+c.R.Intn(3)))
+	}
+	// trees built by quote / unquote of computed values, not by the parser
+	uvals := []string{"1+1", "0-5", "0", "0-0", "9223372036854775807", "-9223372036854775807-1", "-9223372036854775807", "2*3", "1<2", "1>2", "!true", "4/2.", "1.5", "0-1.5", "0.0", "-0.0", "1e100", "1/3.", "2.0*1e15", "1e21", "1.0/0",
+		"-1.0/0", "0.0/0", "\"a\"+\"b\"", "\"q\\\"q\"", "\"\"", "\"a\\nb\"", "\"`\"", "[1,2]", "[]", "[1.0]", "{1:2}", "{}", "nil", "x=>x", "func(a){a}", "len", "PI", "1:3", "[1,2,3][1:]", "first([7])", "n", "n+1", "info"}
+	utmpl := []string{"@", "n / @", "n - @", "n + @", "-@", "- @", "!@", "@ - n", "[@, @]", "f(@)", "{@: @}", "@.x", "@[0]", "a - @ - b", "x = @", "func(n){n / @}", "n => n - @", "if @ {1} else {@}", "@ @", "(@)"}
+	for _, t := range utmpl {
+		for _, e := range uvals {
+			unquoteCase(c, t, e)
+		}
 	}
 	// strings over the byte universe and number forms
 	for i := 0; i < 400; i++ {
